@@ -228,14 +228,14 @@ Section Deref.
           match u with
           | Err e => (h2, Err e)
           | Ok _ =>
-              let h3 := set_target h2 i r in
-              (* `self._target.aliases[self.path] = self`: an alias target is dereferenced to its final target *)
-              match ref_is_alias h3 r with
-              | None => (h3, Err EBad)
-              | Some false => (h3, Ok tt)
+              (* `target_aliases = resolved.aliases` comes first: an alias target is dereferenced down to its final
+                 target, and only then is the link stored (`self._target = resolved`) *)
+              match ref_is_alias h2 r with
+              | None => (h2, Err EBad)
+              | Some false => (set_target h2 i r, Ok tt)
               | Some true =>
-                  let '(h4, f) := final_target L h3 r [] in
-                  match f with Err e => (h4, Err e) | Ok _ => (h4, Ok tt) end
+                  let '(h4, f) := final_target L h2 r [] in
+                  match f with Err e => (h4, Err e) | Ok _ => (set_target h4 i r, Ok tt) end
               end
           end
     end.
@@ -322,24 +322,28 @@ Section Loader.
         end
     end.
 
-  (* one iteration of the while loop: every module of the collection, each with a fresh `seen` *)
-  Fixpoint pass_modules (h : heap) (mods : list (string * nat)) (unres : list string) : heap * res (list string) :=
+  (* one iteration of the while loop: every module of the collection, each with a fresh `seen`;
+     `resolved |= next_resolved; unresolved |= next_unresolved` *)
+  Fixpoint pass_modules (h : heap) (mods : list (string * nat)) (unres rsv : list string)
+    : heap * res (list string * list string) :=
     match mods with
-    | [] => (h, Ok unres)
+    | [] => (h, Ok (unres, rsv))
     | (_, m) :: rest =>
-        let '(a, r) := rma (S (List.length h)) (mkAcc h [] [] unres) m in
+        let '(a, r) := rma (S (List.length h)) (mkAcc h [] rsv unres) m in
         match r with
         | Err e => (a_heap a, Err e)
-        | Ok _ => pass_modules (a_heap a) rest (a_unresolved a)
+        | Ok _ => pass_modules (a_heap a) rest (a_unresolved a) (a_resolved a)
         end
     end.
 
-  Definition one_pass (h : heap) : heap * res (list string) := pass_modules h coll [].
+  Definition one_pass (h : heap) : heap * res (list string * list string) := pass_modules h coll [] [].
 
   Definition incl_str (a b : list string) : bool := forallb (fun x => mem_str x b) a.
   Definition set_eq (a b : list string) : bool := incl_str a b && incl_str b a.
+  Definition is_nil {A} (l : list A) : bool := match l with [] => true | _ => false end.
 
-  (* `while unresolved and unresolved != prev_unresolved` *)
+  (* `while unresolved and (progress or unresolved != prev_unresolved)` with
+     `progress = bool(resolved) or len(collection) != loaded_modules` (the collection cannot grow with external=False) *)
   Fixpoint ra_loop (k : nat) (h : heap) (prev : list string) (it : nat) : heap * res (list string * nat) :=
     match k with
     | 0 => (h, Err EFuel)
@@ -347,10 +351,10 @@ Section Loader.
         let '(h', r) := one_pass h in
         match r with
         | Err e => (h', Err e)
-        | Ok unres =>
+        | Ok (unres, resolved) =>
             match unres with
             | [] => (h', Ok (unres, S it))
-            | _ => if set_eq unres prev then (h', Ok (unres, S it)) else ra_loop k' h' unres (S it)
+            | _ => if is_nil resolved && set_eq unres prev then (h', Ok (unres, S it)) else ra_loop k' h' unres (S it)
             end
         end
     end.
@@ -436,6 +440,14 @@ Definition complete_at (L : nat) (h : heap) (n : node) : bool :=
    stored links does not reach an object *)
 Definition chains_complete_L (L : nat) (h : heap) : bool := forallb (complete_at L h) h.
 Definition chains_complete (h : heap) : bool := chains_complete_L (fuelL h) h.
+
+(* every stored link leads, through stored links, to an object (the alias' own path is not in the seen-set here) *)
+Definition target_complete_at (L : nat) (h : heap) (n : node) : bool :=
+  match n with
+  | NAlias _ _ (Some t) _ _ => match chain_end L h t [] with Some _ => true | None => false end
+  | _ => true
+  end.
+Definition targets_complete (h : heap) : bool := forallb (target_complete_at (fuelL h) h) h.
 
 Definition alias_paths (h : heap) : list string :=
   map node_path (filter is_alias_node h).
@@ -542,7 +554,7 @@ Definition run_C06 (s : sexp) : sexp :=
       match as_list_of dec_member c, as_list_of dec_node ns with
       | Some coll, Some h =>
           SList (SList [SStr "class"; of_bool (wf coll h); of_bool (no_passed h); of_bool (direct coll h);
-                        of_bool (chains_complete h); of_bool (unique_paths h)]
+                        of_bool (chains_complete h); of_bool (unique_paths h); of_bool (targets_complete h)]
                  :: enc_state h :: run_ops coll h ops)
       | _, _ => bad_input
       end
